@@ -93,3 +93,22 @@ prop("C19", [H("H19_faults", common=dict(VEC, param="large=1"), quick={"wall": "
 # thorough only: the section / id tables are Go maps; the same runs with maps iterated in reverse insertion order
 for _pid, _name, _param in (("C04", "H04_persist", "lite=1,maxDocs=1"), ("C09", "H09_layout", "maxDocs=1,lite=1"), ("C13", "H13_synmerge", "maxSyn=1,emptyTerm=1,drop1=0,reopen=0"), ("C12", "H12_syn", "maxSyn=2")):
     PLAN[_pid]["harnesses"].append(H(_name, common={"reverse-maps": True}, quick={"skip": True}, thorough={"wall": "1500s", "shards": 16, "param": _param}))
+
+
+# composite fields (bleve's _all: delivered through VisitComposite, locations name the source field) and the
+# same batches under the `vectors` build tag (a third section type is registered; stand-in engine module)
+def _add(pid, *hs):
+    PLAN[pid]["harnesses"].extend(hs)
+
+
+_add("C01", H("H01_shape", quick={"wall": "140s", "shards": 8, "param": "comp=1,lite=1"}, thorough={"wall": "1500s", "shards": 16, "param": "comp=1"}),
+     H("H01_shape", common={"vectors": True}, quick={"wall": "140s", "shards": 12, "param": "lite=1"}, thorough={"wall": "1500s", "shards": 16}))
+_add("C04", H("H04_persist", quick={"wall": "140s", "shards": 8, "param": "maxDocs=1,comp=1"}, thorough={"wall": "1500s", "shards": 16, "param": "maxDocs=2,comp=1"}),
+     H("H04_persist", common={"vectors": True}, quick={"wall": "140s", "shards": 8, "param": "lite=1,maxDocs=1"}, thorough={"wall": "1500s", "shards": 16, "param": "maxDocs=1"}))
+_add("C06", H("H06_merge", quick={"wall": "150s", "shards": 16, "param": "maxDocs=1,tieReopen=1,lite=1,comp=1"}, thorough={"wall": "1500s", "shards": 16, "param": "maxDocs=1,tieReopen=0,comp=1"}),
+     H("H06_merge", common={"vectors": True}, quick={"wall": "140s", "shards": 8, "param": "maxDocs=1,tieReopen=1,lite=1"}, thorough={"wall": "1500s", "shards": 16, "param": "maxDocs=1,tieReopen=0"}))
+_add("C09", H("H09_layout", quick={"wall": "140s", "shards": 8, "param": "maxDocs=1,comp=1"}, thorough={"wall": "1500s", "shards": 16, "param": "maxDocs=2,comp=1"}),
+     H("H09_layout_merged", quick={"skip": True}, thorough={"wall": "1500s", "shards": 16, "param": "comp=1,lite=1"}))
+_add("C12", H("H12_syn", common={"vectors": True}, quick={"wall": "140s", "shards": 8, "param": "maxSyn=1"}, thorough={"wall": "1500s", "shards": 16, "param": "maxSyn=2"}))
+# a segment above the 1000-vector threshold: clustered index class, cluster API of the filtered search
+_add("C14", H("H14_large", common={"vectors": True}, quick={"wall": "200s", "shards": 16, "shard-depth": 4}, thorough={"wall": "1500s", "shards": 16, "shard-depth": 4, "param": "nLarge=2100"}))
